@@ -115,7 +115,12 @@ func c08rSetup(order []int, fault bool, s *xsched.Sched) *c08rEnv {
 		m, a, _ := c08rQuery(3)
 		b, _ := m.Pack()
 		pre := &c08rConn{written: map[string][][]byte{}, in: [][]byte{b}, from: []net.Addr{a}, failWrites: 2}
+		// The worker of this earlier exchange runs to its end right here (not
+		// as a goroutine that could still be returning its buffer while the
+		// tasks of the scenario start).
+		xsched.SpawnHook = func(_ string, f func(), _ []any) { f() }
 		_ = srv.acceptUDPMsg(context.Background(), pre)
+		xsched.SpawnHook = nil
 		srv.wg.Wait()
 	}
 	for _, i := range order {
